@@ -431,9 +431,9 @@ pub fn starts_regular(s: &[u8]) -> bool {
     }
 }
 
-/// values whose spelling ends in a regular character (AS IN Spec/Render.lean: streams are not listed)
+/// values whose spelling ends in a regular character (a stream ends in `endstream`)
 pub fn needs_bnd(v: &Val) -> bool {
-    matches!(v, Val::Null | Val::Int(_) | Val::Real(_) | Val::Bool(_) | Val::Ref(_, _) | Val::Name(_))
+    matches!(v, Val::Null | Val::Int(_) | Val::Real(_) | Val::Bool(_) | Val::Ref(_, _) | Val::Name(_) | Val::StreamPending(..) | Val::StreamInFile(..))
 }
 
 pub fn zeros(k: u64) -> Vec<u8> {
